@@ -412,6 +412,7 @@ def main():
             i += 2
         elif args[i] == '--only':
             only = re.compile(args[i + 1])
+            os.environ['VF_PARTIAL'] = '1'
             i += 2
         elif args[i] == '--keep':
             keep = True
